@@ -21,8 +21,10 @@ type Term struct {
 }
 
 type Field struct {
-	N string `json:"n"`
-	T *Term  `json:"t"`
+	N   string `json:"n"`
+	T   *Term  `json:"t"`
+	Tag string `json:"tag,omitempty"`
+	Emb bool   `json:"emb,omitempty"`
 }
 
 // Decls collects the declarations a package needs for the named types used by its terms.
@@ -64,7 +66,14 @@ func (d *Decls) GoType(t *Term) string {
 	case "struct":
 		var fs []string
 		for _, f := range t.Fs {
-			fs = append(fs, f.N+" "+d.GoType(f.T))
+			decl := f.N + " " + d.GoType(f.T)
+			if f.Emb {
+				decl = d.GoType(f.T)
+			}
+			if f.Tag != "" {
+				decl += " `" + f.Tag + "`"
+			}
+			fs = append(fs, decl)
 		}
 		if len(fs) == 0 {
 			return "struct{}"
